@@ -40,7 +40,9 @@ let parse_op toks =
   | ["pset"; p; v; path] -> PSet (n p, z_of_int (i v), path_of (i path))
   | ["pget"; p] -> PGet (n p)
   | ["phas"; p] -> PHasBinding (n p)
-  | ["pobs"; p; k; l; h] -> PObserve (n p, kind_of (i k), n l, n h)
+  | ["pobs"; p; k; l; h] -> PObserve (n p, kind_of (i k), n l, n h, None)
+  | ["pobsset"; p; k; l; h; q] -> PObserve (n p, kind_of (i k), n l, n h, Some (n q))
+  | ["passign"; p; q] -> PAssignFrom (n p, n q)
   | ["punobs"; h] -> PUnobserve (n h)
   | "pbind" :: p :: m :: e -> let (ex, _) = parse_expr e in PBind (n p, ex, mode_of m)
   | ["preset"; p] -> PReset (n p)
